@@ -42,7 +42,7 @@ def run_op(ctx, name, args, kwargs, assume=None, summaries=None, no_inline=()):
     return it, r
 
 
-def protocol(ctx, it, r, q, out_param="output_file", n_writes=1):
+def protocol(ctx, it, r, q, out_param="output_file", n_writes=1, allow_multi=False):
     m, fn = ctx.prog.func(q)
     ctor = [e for e in it.events if e.kind == "call" and e.name == "cryocat.tiltstack.TiltStack"]
     wr = [e for e in it.events if e.kind == "call" and e.name.endswith("TiltStack.write_out")]
@@ -50,6 +50,9 @@ def protocol(ctx, it, r, q, out_param="output_file", n_writes=1):
     upd = [e for e in it.events if e.kind == "setattr" and e.name == "data" and e.fn == q]
     if not ctor or len(wr) != n_writes or not co:
         raise Unsupported(f"{q}: TiltStack protocol (construct / write_out / correct_order) not recognised", fn)
+    if not allow_multi and len({to_term(e.args[1]).key() for e in upd}) > 1:
+        # alternative ways of computing the result on different paths (a fast path next to the general one): the rules below look at one update
+        raise Unsupported(f"{q}: the stack is updated in {len(upd)} different ways on different paths; only single-path operations are decided", upd[0].node)
     for opt in ("input_order", "output_order"):
         a = ctor[0].kwargs.get(opt)
         ctx.count(1)
@@ -202,7 +205,7 @@ def o152(ctx):
     m, fn = ctx.prog.func(q)
     ctx.touched(q)
     it, r = run_op(ctx, "bin", [Unk(sym("input")), P("b")], {"output_file": P("output_file")})
-    upd = protocol(ctx, it, r, q)
+    upd = protocol(ctx, it, r, q, allow_multi=True)
     ds = [e for e in it.events if e.kind == "call" and e.name.endswith("downscale_local_mean")]
     if not ds or not upd:
         raise Unsupported("bin structure not recognised", fn)
